@@ -233,6 +233,7 @@ func (n *Node) ClearBacks() {
 	n.closeView = map[uint64]string{}
 	n.closeView2 = map[uint64]string{}
 	n.closeWatched = map[uint64]bool{}
+	n.hooked = map[uint64]bool{}
 	n.sessMu.Unlock()
 }
 
